@@ -46,6 +46,7 @@ func extractLagStates(states data.ND1Float64) []float64 {
 
 func packLagStates(lagged []float64) data.ND2Float64 {
 	result := data.NewArray2DFloat64(1, len(lagged))
+	result.Apply([]int{0, 0}, 1, 1, lagged)
 	return result
 }
 
